@@ -444,7 +444,16 @@ func (tr *Tr) mapGet(st *State, t types.Type, id *Term, k Val) (Val, *Term) {
 		v := f.Select(f.Select(tr.get(st, mapComp(t, fmt.Sprint(i))), id), key)
 		out[i] = f.Ite(ok, v, tr.zeroLeaf(l))
 	}
-	tr.assumeInv(ls, out)
+	bm := map[*Term]bool{}
+	bound := false
+	for _, t := range out {
+		if containsBound(t, bm) {
+			bound = true
+		}
+	}
+	if !bound {
+		tr.assumeInv(ls, out)
+	}
 	return out, ok
 }
 
